@@ -74,6 +74,13 @@ def sem_fixed():
         Variant("FxAt", "struct", [Field("fx_at", user(pt), flatten=True)]),
         Variant("FxCircle", "struct", [Field("fx_r", prim("i32"))])]))
     add(Item("FxTaggedFlatOnly", "FxTaggedFlatOnly", "named", tag="fx_t", fields=[Field("fx_p", user(pt), flatten=True)]))
+    # a rename rule over fields declared after a flattened one
+    add(Item("FxSprite", "FxSprite", "named", rename_all="camelCase", fields=[
+        Field("fx_sprite_id", prim("u32")), Field("fx_screen_position", user(pt), flatten=True),
+        Field("fx_z_index", prim("i32")), Field("fx_is_visible", prim("bool"))]))
+    add(Item("FxSpriteEvent", "FxSpriteEvent", "enum", rename_all_fields="SCREAMING-KEBAB-CASE", variants=[
+        Variant("FxMoved", "struct", [Field("fx_where_to", user(pt), flatten=True), Field("fx_moved_by", prim("String")), Field("fx_at_time", prim("u32"))]),
+        Variant("FxGone", "unit")]))
     # a serde key ts-rs has no use for, written without a value directly in front of keys it uses (one list)
     it = add(Item("FxFlagBeforeKey", "FxFlagBeforeKey", "enum", variants=[
         Variant("FxCircle", "struct", [Field("fx_radius", prim("u8"))]), Variant("FxUnitSquare", "unit")]))
@@ -109,6 +116,37 @@ def sem_fixed():
         Field("fx_ea", user(ea), flatten=True), Field("fx_eb", user(eb), flatten=True)]))
     add(Item("FxOnlyFlatTwoEnums", "FxOnlyFlatTwoEnums", "named", fields=[Field("fx_mid", user(mid), flatten=True)]))
     add(Item("FxInlineTwoEnums", "FxInlineTwoEnums", "named", fields=[Field("fx_k2", prim("u8")), Field("fx_mid2", user(mid), inline=True)]))
+    g.items = items
+    g.make_entries()
+    return g
+
+
+def rename_fixed():
+    """fixed inputs for C09's end-to-end part: a rename rule next to members that take no name of their own"""
+    g = Gen(0, "Fr", Profile())
+    items = []
+
+    def add(it):
+        it.derives = list(DERIVES)
+        items.append(it)
+        return it
+    pt = add(Item("FrPoint", "FrPoint", "named", fields=[Field("fr_x_pos", prim("i32")), Field("fr_y_pos", prim("i32"))]))
+    for k, rule in enumerate(["camelCase", "PascalCase", "SCREAMING_SNAKE_CASE", "kebab-case", "UPPERCASE"]):
+        add(Item(f"FrSprite{k}", f"FrSprite{k}", "named", rename_all=rule, fields=[
+            Field("fr_sprite_id", prim("u32")), Field("fr_screen_position", user(pt), flatten=True),
+            Field("fr_z_index", prim("i32")), Field("fr_is_visible", prim("bool"))]))
+        add(Item(f"FrSkipFirst{k}", f"FrSkipFirst{k}", "named", rename_all=rule, fields=[
+            Field("fr_hidden_one", prim("u8"), skip=True), Field("fr_shown_one", prim("i32")), Field("fr_shown_two", prim("bool"))]))
+        add(Item(f"FrRenamedFirst{k}", f"FrRenamedFirst{k}", "named", rename_all=rule, fields=[
+            Field("fr_first_one", prim("u8"), rename="explicit_name"), Field("fr_second_one", prim("i32")),
+            Field("fr_third_one", user(pt), inline=True), Field("fr_fourth_one", prim("bool"))]))
+    add(Item("FrSpriteEvent", "FrSpriteEvent", "enum", rename_all_fields="SCREAMING-KEBAB-CASE", variants=[
+        Variant("FrMoved", "struct", [Field("fr_where_to", user(pt), flatten=True), Field("fr_moved_by", prim("String")), Field("fr_at_time", prim("u32"))]),
+        Variant("FrGone", "unit")]))
+    add(Item("FrVariantRule", "FrVariantRule", "enum", tag="fr_t", variants=[
+        Variant("FrMoved", "struct", [Field("fr_skipped_one", prim("u8"), skip=True), Field("fr_where_to", user(pt), flatten=True),
+                                      Field("fr_moved_by", prim("String"))], rename_all="camelCase"),
+        Variant("FrGone", "unit")]))
     g.items = items
     g.make_entries()
     return g
